@@ -15,6 +15,9 @@
    hand over together with their LOGICAL binary64 values (numpy only), which every expectation is computed from;
    build_indexer makes an indexer the ways the library does (indexer(gv=), indexer_from_colfile,
    indexer_from_colfile_and_ucell, readgvfile, .gv assigned) optionally followed by assigntorings()
+ * non-finite peaks (NFKinds of ScoreAssignLayout.tla): nf_values / inject_nonfinite put NaN / +inf / -inf into one or
+   all components of chosen rows; such a peak is indexed by no grain (reference error := +inf, never taken from the
+   code), finite_rows() says which rows are meant; every comparison of stored errors is written so that a NaN fails it
 """
 import io, os, contextlib
 import numpy as np
@@ -39,6 +42,70 @@ PLAIN = ("C", "C", "indexer", "direct")
 INT_LAYOUTS = ("i64", "i32F")
 # layouts that keep binary64 values bit for bit (usable for detector columns, where the reference is formed from the values)
 SAME_VALUE_LAYOUTS = ("C", "F", "rows2", "cols2", "rev", "be", "unaligned", "readonly")
+# non-finite peaks: NFKinds of ScoreAssignLayout.tla and the layouts / builds of configuration _nf
+NF_KINDS = ("nan_one", "nan_all", "pinf_one", "ninf_one", "inf_all")
+NF_GV_LAYOUTS = ("C", "F", "cols2", "f32", "be")
+NF_UBI_LAYOUTS = ("C", "F")
+
+
+def nf_combos():
+    """the combinations configuration _nf enumerates (floating item types, no assigntorings(): it raises on a NaN)"""
+    return [x for x in combos() if x[0] in NF_GV_LAYOUTS and x[1] in NF_UBI_LAYOUTS and x[3] == "direct"]
+
+
+def float_combos():
+    """every combination a non-finite g-vector can be handed over under"""
+    return [x for x in combos() if x[0] not in INT_LAYOUTS and x[3] == "direct"]
+
+
+def nf_values(kind, j):
+    """the three components of a non-finite peak of the named kind at array position j: None = keep the finite value.
+    The component of a _one kind and the signs of inf_all rotate with the position"""
+    nan, inf = float("nan"), float("inf")
+    one = lambda v: tuple(v if c == j % 3 else None for c in range(3))
+    if kind == "nan_one":
+        return one(nan)
+    if kind == "pinf_one":
+        return one(inf)
+    if kind == "ninf_one":
+        return one(-inf)
+    if kind == "nan_all":
+        return (nan, nan, nan)
+    if kind == "inf_all":
+        return tuple(inf if (j + c) % 2 else -inf for c in range(3))
+    raise common.MachineryError("unknown non-finite kind %r" % (kind,))
+
+
+def put_nonfinite(g, rows, kinds):
+    """g (n,3) binary64, modified in place: row rows[i] becomes a non-finite peak of kind kinds[i]"""
+    for j, kind in zip(rows, kinds):
+        for c, v in enumerate(nf_values(kind, int(j))):
+            if v is not None:
+                g[j, c] = v
+    return g
+
+
+def inject_nonfinite(rng, gv, frac=0.08, at_least=3, column=None):
+    """a copy of gv in which seeded rows (every chunk of 4096 gets some) are non-finite peaks of rotating kinds;
+    column = c: the whole column c is NaN as well (a NaN gx / gy / gz column of a columnfile).  returns (gv, rows)"""
+    g = np.array(gv, float)
+    n = len(g)
+    m = min(n, max(at_least, int(frac * n)))
+    rows = set(int(x) for x in rng.choice(n, size=m, replace=False))
+    for c0 in range(0, n, CHUNK):                   # first and last peak of every OpenMP chunk
+        rows.update((c0, min(n, c0 + CHUNK) - 1))
+    rows = np.array(sorted(rows))
+    k0 = int(rng.integers(0, len(NF_KINDS)))
+    put_nonfinite(g, rows, [NF_KINDS[(k0 + i) % len(NF_KINDS)] for i in range(len(rows))])
+    if column is not None:
+        g[:, column] = np.nan
+        rows = np.arange(n)
+    return g, rows
+
+
+def finite_rows(a):
+    """rows of a (n, m) array that hold finite values only"""
+    return np.isfinite(np.asarray(a, float)).all(axis=1)
 
 
 def combos():
@@ -131,6 +198,8 @@ def realise(gv, ubis, glay, ulay, scale):
     """(a, ul, gvl, ubl, sc): the arrays to hand over under (glay, ulay) and their logical binary64 values.  Integer
     g-vectors are the g-vectors times `scale` (a power of two), the UBIs divided by it; sc = the factor applied (1 or scale)"""
     sc = float(scale) if glay in INT_LAYOUTS else 1.0
+    if sc != 1.0 and not np.isfinite(np.asarray(gv, float)).all():
+        raise common.MachineryError("an integer item type cannot hold a non-finite g-vector")
     a = lay_gv(np.asarray(gv, float) * sc, glay)
     if ulay == "i64" and sc != 1.0:
         raise common.MachineryError("integer UBIs with integer g-vectors")
@@ -287,6 +356,9 @@ class Packed(object):
             lev = self.lev[g] if g < self.R else np.full(self.P, 3)
             gv1[:, g] = (3 + (p % 5) + g) + LEVELV[lev]
         self.gv1 = gv1
+        # non-finite peaks (ScoreAssignLayout.tla, nf): the finite components keep the table's values
+        self.nfk = np.array([list(t.get("nf", ["fin"] * K)) for t in cases]).reshape(self.P)
+        self.has_nf = bool((self.nfk != "fin").any())
 
     def tile(self, total):
         return np.arange(total) % self.P
@@ -294,8 +366,12 @@ class Packed(object):
     def arrays(self, idx, lay):
         """the tiled g-vectors and the table UBIs under the layout `lay` = (glay, ulay, build, prep): (a, ul, gvl, sc).
         The tables are exact in every item type: binary32 holds the dyadic values, integer g-vectors are 64 gv with UBI / 64"""
-        a, ul, gvl, ubl, sc = realise(self.gv1[idx], self.ubis, lay[0], lay[1], 64)
-        if not np.array_equal(gvl, self.gv1[idx] * sc) or any(not np.array_equal(x, u / sc) for x, u in zip(ubl, self.ubis)):
+        g = self.gv1[idx].copy()
+        if self.has_nf:
+            j = np.nonzero(self.nfk[idx] != "fin")[0]
+            put_nonfinite(g, j, self.nfk[idx][j])
+        a, ul, gvl, ubl, sc = realise(g, self.ubis, lay[0], lay[1], 64)
+        if not np.array_equal(gvl, g * sc, equal_nan=True) or any(not np.array_equal(x, u / sc) for x, u in zip(ubl, self.ubis)):
             raise common.MachineryError("layout %s does not hold the table's values" % (lay,))
         return a, ul, gvl, sc
 
@@ -339,7 +415,7 @@ class Packed(object):
                             probs.append(("%s: labels differ from the specification at %d peaks, first %d: %d vs %d" % (
                                 tag, len(bad), bad[0], labels[bad[0]], elab[bad[0]]), self.describe(bad[0], idx)))
                             break
-                        bad = np.nonzero(drlv2 != edr)[0]
+                        bad = np.nonzero(~(drlv2 == edr))[0]                 # a NaN stored error equals nothing
                         if len(bad):
                             probs.append(("%s: stored errors differ from the specification at %d peaks, first %d: %r vs %r" % (
                                 tag, len(bad), bad[0], drlv2[bad[0]], edr[bad[0]]), self.describe(bad[0], idx)))
@@ -371,13 +447,13 @@ class Packed(object):
         if got_dr is not None:
             asg = wdr < 3
             edr = self.drval(wdr, init)
-            bad = np.nonzero(asg & (np.asarray(got_dr) != edr))[0]
+            bad = np.nonzero(asg & ~(np.asarray(got_dr) == edr))[0]             # NaN-proof: a NaN equals nothing
             if len(bad):
                 probs.append(("%s: stored error is not the minimum at %d peaks, first %d: %r vs %r" % (
                     tag, len(bad), bad[0], got_dr[bad[0]], edr[bad[0]]), self.describe(bad[0], idx)))
-            bad = np.nonzero(~asg & ~(np.asarray(got_dr) >= TOL * TOL))[0]
+            bad = np.nonzero(~asg & ~(np.asarray(got_dr) >= TOL * TOL))[0]      # NaN-proof: NaN >= x is false
             if len(bad):
-                probs.append(("%s: a peak indexed by no grain stores an error below tol^2 (%r)" % (tag, got_dr[bad[0]]),
+                probs.append(("%s: a peak indexed by no grain stores an error that is not >= tol^2 (%r)" % (tag, got_dr[bad[0]]),
                               self.describe(bad[0], idx)))
         return probs
 
@@ -477,9 +553,10 @@ def group_by_order(recs):
 
 def hkl_err(ubi, gv):
     """|UBI.g - nearest integer vector|^2 per peak: the harness's own computation"""
-    h = np.asarray(gv, float) @ np.asarray(ubi, float).T
-    d = h - np.rint(h)
-    return (d * d).sum(axis=1)
+    with np.errstate(invalid="ignore", over="ignore"):
+        h = np.asarray(gv, float) @ np.asarray(ubi, float).T
+        d = h - np.rint(h)
+        return (d * d).sum(axis=1)
 
 
 def clearly_distinct(a, b):
@@ -494,13 +571,15 @@ class Ranked(object):
 
     def __init__(self, errs, tol2, ident):
         errs = np.asarray(errs, float)
+        errs = np.where(np.isnan(errs), np.inf, errs)         # no hkl error below any tolerance: indexed by no grain
         R, K = errs.shape
         self.errs = errs
         self.R, self.K, self.E = R, K, R + 1
         t2 = np.broadcast_to(np.asarray(tol2, float).reshape(-1, 1), (R, K)) if np.ndim(tol2) else np.full((R, K), float(tol2))
         self.tol2 = t2
         inside = errs < t2
-        keep = ~(np.abs(errs - t2) < 1e-6 * t2).any(axis=0)
+        with np.errstate(invalid="ignore"):
+            keep = ~(np.abs(errs - t2) < 1e-6 * t2).any(axis=0)
         rank = np.full((R, K), self.E, int)
         nin = inside.sum(axis=0)
         one = np.nonzero(keep & (nin == 1))[0]
@@ -529,7 +608,8 @@ class Ranked(object):
         """rank of stored errors d[k]: E for the initial value (exactly `init`, or anything >= floor when the caller owns
         the buffer), the rank of the reference error it equals, -2 when it equals none"""
         d = np.asarray(d, float)
-        m = (self.rank < self.E) & (np.abs(self.errs - d[None, :]) <= 1e-9 * np.maximum(self.errs, d[None, :]) + 1e-20)
+        with np.errstate(invalid="ignore"):                    # a NaN stored error equals no reference error: rank -2
+            m = (self.rank < self.E) & (np.abs(self.errs - d[None, :]) <= 1e-9 * np.maximum(self.errs, d[None, :]) + 1e-20)
         first = m.argmax(axis=0)
         out = np.where(m.any(axis=0), self.rank[first, np.arange(self.K)], -2)
         if init is not None:
@@ -689,7 +769,8 @@ def make_geo_case(rng, mods, kpar, G, family, lattice="F", nstray=60):
 
 def geo_errs(sc, fc, omega, grains, pars):
     """reference errors (G, K): g-vectors of every peak for each grain's own position (c09_sim.forward), own numpy"""
-    return np.array([c09_sim.hkl_errors(sc, fc, omega, ubi, t, pars) for (ubi, t) in grains])
+    with np.errstate(invalid="ignore", over="ignore", divide="ignore"):       # non-finite detector columns give NaN errors (-> +inf in Ranked)
+        return np.array([c09_sim.hkl_errors(sc, fc, omega, ubi, t, pars) for (ubi, t) in grains])
 
 
 def run_assignlabels(c, mods, case, grains, order, tol, nt, stale=None, lay=None):
@@ -709,7 +790,7 @@ def run_assignlabels(c, mods, case, grains, order, tol, nt, stale=None, lay=None
         if lay[0] not in SAME_VALUE_LAYOUTS:
             raise common.MachineryError("detector columns need a value preserving layout")
         tab = lay_gv(np.array((sc_, fc_, om_)).T, lay[0])
-        if not np.array_equal(logical(tab), np.array((sc_, fc_, om_)).T):
+        if not np.array_equal(logical(tab), np.array((sc_, fc_, om_)).T, equal_nan=True):
             raise common.MachineryError("layout %s changed the detector columns" % lay[0])
         sc_, fc_, om_ = tab[:, 0], tab[:, 1], tab[:, 2]
     cf = mods["columnfile"].colfile_from_dict({"sc": sc_, "fc": fc_, "omega": om_,
